@@ -30,12 +30,23 @@ Hist == /\ Is("Hist") /\ l' = l + 1
                    ELSE Ev.sums[b + 1] = SumSeq(vb) /\ Ev.medians2[b + 1] = Percentile2(vb, 400)
            \* bin(v) for every query
            /\ \A q \in DOMAIN Ev.queries : Ev.bins[q] = BinOf(thr, Ev.queries[q])
+           \* the overloads taking the number of bins: equidistant ratios k / bins (args in 1/8) resp. percentages 100 k / bins (args in 1/8)
+           /\ Ev.equidistant > 0 =>
+                /\ Ev.ctor \in {"ratios", "percentiles"} /\ Len(thr) = Ev.equidistant - 1
+                /\ Ev.args = [i \in 1..(Ev.equidistant - 1) |-> ((IF Ev.ctor = "ratios" THEN 8 ELSE 800) * i) \div Ev.equidistant]
+           \* the vector accessors counts() / means() / medians() agree with the per-bin getters (compared by the driver)
+           /\ Ev.vecOK
+\* thresholds that are not on the lattice (equidistant ratios / percentages for any number of bins, exponents with any base and epsilon): the
+\* driver's own naive re-computation relative to the reported thresholds (environment predicates): thresholds as documented (thrOK) and
+\* sorted, the counts sum to n, count / mean / median of every bin are those of the values that fall in it, bin(v) follows the counting rule
+HistF == /\ Is("HistF") /\ l' = l + 1 /\ Ev.n >= 1 /\ Ev.bins >= 2
+         /\ Ev.thrOK /\ Ev.sortedOK /\ Ev.sumOK /\ Ev.partOK /\ Ev.binOK /\ Ev.vecOK
 \* ml::store_stats: [mean, stdev, count, per01, per05, per10, per20, per50, per80, per90, per95, per99]
 Stats == /\ Is("Stats") /\ l' = l + 1
          /\ LET s == Sorted(Ev.vals) IN
             /\ Ev.sum = SumSeq(s) /\ Ev.count = Len(s)
             /\ Ev.pers2 = [i \in 1..9 |-> Percentile2(s, <<8, 40, 80, 160, 400, 640, 720, 760, 792>>[i])]
-Next == Pct \/ Hist \/ Stats
+Next == Pct \/ Hist \/ Stats \/ HistF
 Init == l = 1
 Spec == Init /\ [][Next]_l
 Accepted == LET d == TLCGet("stats").diameter IN
